@@ -6,5 +6,6 @@ CONSTANTS
   Gaps = {0, 1, 2, 4, 7}
 INVARIANT NoError
 INVARIANT C08_MemberEqStandalone
+INVARIANT C08_AtConstruction
 INVARIANT C08_BaseKeepsOHLCV
 CHECK_DEADLOCK FALSE
